@@ -34,7 +34,7 @@ func (c37) Gen(seed int64, tier string, emit func(any)) {
 	// exhaustive small sizes
 	if thorough {
 		tokExhaustive(tokAlphabet, 3, e)
-		tokExhaustive(tokAlphabetSmall, 5, e)
+		tokExhaustive(tokAlphabetSmall, 4, e)
 	} else {
 		tokExhaustive(tokAlphabet, 2, e)
 		tokExhaustive(tokAlphabetSmall, 3, e)
@@ -42,7 +42,7 @@ func (c37) Gen(seed int64, tier string, emit func(any)) {
 	rng := rand.New(rand.NewSource(seed))
 	nf, na, nh := 900, 400, 200
 	if thorough {
-		nf, na, nh = 12000, 5000, 2000
+		nf, na, nh = 6000, 4000, 2000
 	}
 	for i := 0; i < nf; i++ {
 		e(tokRandFragments(rng, 12))
